@@ -11,7 +11,7 @@ import tempfile
 
 from vlib import cidlib, enc_ods, enc_xlsx
 from vlib import repo as vrepo
-from vlib.runner import Sub, norm_message
+from vlib.runner import Sub, norm_message, par_map
 
 import cutplace
 from cutplace import applications, errors
@@ -206,7 +206,7 @@ def expectation(cid_state, verdicts):
     rejected = sorted(set(k for k, v in verdicts if v == "rejected"))
     names = {"M": "missing", "D": "directory", "F": "field", "U": "unique"}
     unreadable_text = "data-" + ("missing" if "M" in unreadable else "directory")  # one bucket per root cause
-    rejected_text = "rejected-by-" + "+".join(names[k] for k in rejected)
+    rejected_text = "rejected-by-" + (names[rejected[0]] if rejected else "")  # one bucket per root cause
     if cid_state in ("missing", "directory"):
         return {3}, "cid-" + cid_state
     if cid_state == "rejected":
@@ -226,6 +226,34 @@ def expectation(cid_state, verdicts):
     return {0}, "accepted-sharing-keys" if shares else "accepted"
 
 
+def _fail(sub, signature, case, message):
+    case = dict(case)
+    case["observed"] = message
+    sub.fail(signature, case, message)
+
+
+def run_shards(ctx, fn, args_list, size):
+    """Like ctx.par, but the case kept for each signature is the smallest one met by any shard."""
+    subs = par_map(fn, args_list, ctx.workers)
+    met = {}
+    for sub in subs:
+        for signature, entry in sub.fails.items():
+            met.setdefault(signature, []).extend(entry["cases"])
+        ctx.merge(sub)
+    for signature, cases in met.items():
+        entry = ctx.total.fails[signature]
+        cases.extend(c for c in entry["cases"] if c not in cases)
+        cases.sort(key=size)
+        entry["cases"] = cases[:3]
+        entry["message"] = cases[0].get("observed", entry["message"])
+
+
+def case_size(case):
+    files = case.get("files") or []
+    until = case.get("until", "absent")
+    return (len(files), UNTILS.index(until) if until in UNTILS else 0, "".join(files), str(case.get("arguments")))
+
+
 def set_text(codes):
     return "+".join(str(c) for c in sorted(codes))
 
@@ -236,7 +264,9 @@ def check_multiset(sub, files, variant, multiset, classes, only=None):
     cid_path = files.cid_path(container, cid_state, fmt)
     orders = sorted(set(itertools.permutations(multiset)))
     evals = nontrivial = 0
-    where = "cid-%s-%s|data-%s" % (cid_state, container, fmt)
+    # the file format that can matter for the outcome goes last: the CID's container while the CID does not load,
+    # the data format otherwise
+    where = "data-%s" % fmt if cid_state == "valid" else "cid-%s" % container
     for until in UNTILS:
         occurrence = {}
         verdicts = []
@@ -275,17 +305,19 @@ def check_multiset(sub, files, variant, multiset, classes, only=None):
             case, _ = results[0]
             detail = dict(case)
             detail["codes_by_order"] = [["".join(c["files"]), code] for c, code in results]
-            sub.fail("C18|order|codes-%s|%s|%s" % ("+".join(codes), where, what), detail,
+            _fail(sub, "C18|order|codes-%s|%s|%s" % ("+".join(codes), what, where), detail,
                      "the same files give different exit codes depending on their order (expected %s): %s" % (
                          set_text(expected), ", ".join("%s -> %s" % ("".join(c["files"]) or "-", code)
                                                       for c, code in results)))
             continue
         for case, code in results:
             if code not in expected:
-                sub.fail("C18|exit|expected-%s|got-%s|%s|%s" % (set_text(expected), code, where, what), case,
-                         "main(%s CID %s) returned %s, expected %s; per-file verdicts of cutplace.validate: %s" % (
-                             " ".join(until_args(until)), " ".join(case["files"]), code, set_text(expected),
-                             ", ".join("%s=%s" % kv for kv in verdicts)))
+                _fail(sub, "C18|exit|expected-%s|got-%s|%s|%s" % (set_text(expected), code, what, where), case,
+                         "main(%r) returned %s, expected %s; CID %s, per-file verdicts of cutplace.validate: %s" % (
+                             ["cutplace"] + until_args(until) + [os.path.basename(a) for a in
+                                                                 [cid_path] + files.paths(case["files"], fmt)],
+                             code, set_text(expected), cid_state,
+                             ", ".join("%s=%s" % kv for kv in verdicts) or "(no data files)"))
     return evals, nontrivial
 
 
@@ -311,7 +343,7 @@ def check_broken_arguments(sub, files, name, template, via="main"):
     sub.cls("arguments:" + name)
     sub.cls("got:%s" % code)
     if code not in (2, "SystemExit(2)"):
-        sub.fail("C18|exit|expected-2|got-%s|arguments|%s" % (code, name), case,
+        _fail(sub, "C18|exit|expected-2|got-%s|arguments|%s" % (code, name), case,
                  "unusable arguments %r: got %s, expected exit code 2" % (template, code))
 
 
@@ -379,7 +411,7 @@ def compare_with_subprocess(sub, files, variant, order, until):
     sub.case(("subprocess", variant, tuple(order), until), len(order) >= 2, ["subprocess:exit-%s" % outside],
              sample=case if len(sub.samples) < 1 else None)
     if str(inside) != str(outside):
-        sub.fail("C18|subprocess|in-process-%s|subprocess-%s|cid-%s-%s|data-%s" % (
+        _fail(sub, "C18|subprocess|in-process-%s|subprocess-%s|cid-%s-%s|data-%s" % (
             inside, outside, cid_state, container, fmt), case,
             "python -m cutplace.applications exits with %s, applications.main returns %s for the same arguments" % (
                 outside, inside))
@@ -389,7 +421,7 @@ def run(ctx):
     todo = units()
     # spread the expensive units (3 files, spreadsheet formats) evenly: stride through the list
     shards = max(1, ctx.workers * 2)
-    ctx.par(_shard, [(i, shards, todo) for i in range(shards)])
+    run_shards(ctx, _shard, [(i, shards, todo) for i in range(shards)], case_size)
     # subprocess sample, chosen by the seed
     every = []
     for variant in VARIANTS:
@@ -402,7 +434,7 @@ def run(ctx):
     picks = every[(ctx.seed * 7) % step::step][:wanted]
     picks += [("arguments", name, template) for name, template in BROKEN_ARGUMENTS[:ctx.n(2, 8)]]
     workers = max(1, min(ctx.workers, len(picks)))
-    ctx.par(_subprocess_shard, [(i, workers, picks) for i in range(workers)])
+    run_shards(ctx, _subprocess_shard, [(i, workers, picks) for i in range(workers)], case_size)
 
 
 def replay(sub, case):
